@@ -5,7 +5,8 @@
 (* of C16.                                                                 *)
 (*                                                                         *)
 (* An abstract file is [name, header, decls, conds]:                       *)
-(*   header  "" = a `model` file, otherwise the module name                *)
+(*   header  "" = a `model` file, "#" = a file of comment and blank lines  *)
+(*           only (no header: it does not parse), otherwise the module name *)
 (*   decls   << [kind \in {"type","ext"}, name, rels : << relation >>] >>  *)
 (*   conds   << condition name >>                                          *)
 (* Every relation/condition body carries the index of the file that wrote  *)
@@ -67,7 +68,8 @@ RECURSIVE DeclsText(_, _, _, _)
 DeclsText(f, ds, i, k) == IF i > Len(ds) THEN "" ELSE DeclText(f, ds[i], k) \o DeclsText(f, ds, i + 1, k)
 RECURSIVE CondsText(_, _, _, _)
 CondsText(f, cs, i, k) == IF i > Len(cs) THEN "" ELSE CondText(f, cs[i], k) \o CondsText(f, cs, i + 1, k)
-HeaderText(f) == (IF Modular(f) THEN "module " \o f.header \o Eol(f) ELSE "model" \o Eol(f) \o "  schema 1.1" \o Eol(f)) \o (IF Loose(f) THEN "# declarations of " \o f.name \o Pad(f) \o Eol(f) ELSE "")
+HeaderText(f) == IF f.header = "#" THEN "# nothing declared here" \o Eol(f) \o "  " \o Eol(f) \o "  # (yet)" \o Eol(f) ELSE
+                 (IF Modular(f) THEN "module " \o f.header \o Eol(f) ELSE "model" \o Eol(f) \o "  schema 1.1" \o Eol(f)) \o (IF Loose(f) THEN "# declarations of " \o f.name \o Pad(f) \o Eol(f) ELSE "")
 HeaderLen(f) == (IF Modular(f) THEN 1 ELSE 2) + (IF Loose(f) THEN 1 ELSE 0)
 Text(f, k) == HeaderText(f) \o DeclsText(f, f.decls, 1, k) \o CondsText(f, f.conds, 1, k)
 RECURSIVE SumLen(_, _, _)
@@ -86,7 +88,8 @@ LineTable(f) == { <<f.decls[i].kind, f.decls[i].name, "", DeclLine(f, i)>> : i \
 (***************************************************************************)
 ExtNames(f) == { f.decls[i].name : i \in { j \in 1..Len(f.decls) : f.decls[j].kind = "ext" } }
 \* syntax errors the listener raises: extend outside a module, a type extended twice in one file
-ParseError(f) == \/ (~Modular(f) /\ ExtNames(f) # {})
+ParseError(f) == \/ f.header = "#"
+                 \/ (~Modular(f) /\ ExtNames(f) # {})
                  \/ \E i, j \in 1..Len(f.decls) : i < j /\ f.decls[i].kind = "ext" /\ f.decls[j].kind = "ext" /\ f.decls[i].name = f.decls[j].name
 MetaNil(f, d) == ~Modular(f) /\ Len(d.rels) = 0                  \* metadata is nil exactly for a non-modular type without relations
 TypeDefOf(f, d) == [name |-> d.name, module |-> f.header, file |-> "", kind |-> d.kind,
